@@ -3,6 +3,8 @@
 package asm
 
 import (
+	"math/big"
+
 	"github.com/llir/llvm/ir"
 	"github.com/llir/llvm/ir/constant"
 	"github.com/llir/llvm/ir/enum"
@@ -583,4 +585,86 @@ func VfC03_DeepModule() {
 		}
 	}
 	vfAssert("C03.deepmodule.fixpoint", m2.String() == s)
+}
+
+// VfC03_Constants: integer constants of wide types built with the
+// constructors (constant.NewInt and, for values outside int64, constant.Int
+// with a math/big value) as a global initialiser and as an instruction
+// operand: the printed text must be read back to exactly the constructed
+// value.  The value is a symbolic quantity in one of the regions where
+// machine-word shortcuts go wrong: any int64 as is (types i64 and i128), or a
+// symbolic offset of up to 2^20 either way from 2^63, 2^64 or -2^63, or such an
+// offset shifted left by 32 bits (types i65 and i128).
+//
+//vf:unwind 400
+//vf:steps 100000000
+//vf:shards 4
+func VfC03_Constants() {
+	a := int64(vfInt("a"))
+	region := vfChoice("region", 5)
+	if region != 0 {
+		vfAssume(vfAnd(a >= -(1<<20), a <= 1<<20))
+	}
+	x := big.NewInt(a)
+	switch region {
+	case 1:
+		x.Add(x, new(big.Int).Lsh(big.NewInt(1), 63))
+	case 2:
+		x.Add(x, new(big.Int).Lsh(big.NewInt(1), 64))
+	case 3:
+		x.Add(x, new(big.Int).Lsh(big.NewInt(1), 63))
+		x.Neg(x)
+	case 4:
+		x.Lsh(x, 32)
+	}
+	var it *types.IntType
+	switch vfChoice("type", 3) {
+	case 0:
+		if region != 0 {
+			return
+		}
+		it = types.I64
+	case 1:
+		if region == 0 {
+			return
+		}
+		// i65 holds -2^64 .. 2^65-1 in LLVM's reading (signed or unsigned)
+		it = types.NewInt(65)
+		vfAssume(vfAnd(x.Cmp(new(big.Int).Lsh(big.NewInt(1), 65)) < 0, x.Cmp(new(big.Int).Neg(new(big.Int).Lsh(big.NewInt(1), 64))) >= 0))
+	default:
+		it = types.NewInt(128)
+	}
+	var c *constant.Int
+	if region == 0 {
+		c = constant.NewInt(it, a)
+	} else {
+		c = &constant.Int{Typ: it, X: x}
+	}
+	m := ir.NewModule()
+	m.NewGlobalDef("g", c)
+	f := m.NewFunc("f", it, ir.NewParam("p", it))
+	b := f.NewBlock("entry")
+	b.NewRet(b.NewAdd(f.Params[0], c))
+	vfReach("C03.constants.built")
+	s := m.String()
+	vfObserveStr("printed", s)
+	m2, err := ParseString("t.ll", s)
+	vfAssert("C03.constants.reparses", err == nil)
+	if err != nil {
+		return
+	}
+	g2, ok := m2.Globals[0].Init.(*constant.Int)
+	vfAssert("C03.constants.global-is-int", ok)
+	if ok {
+		vfAssert("C03.constants.global-value", g2.X.Cmp(x) == 0)
+	}
+	add, ok2 := m2.Funcs[0].Blocks[0].Insts[0].(*ir.InstAdd)
+	vfAssert("C03.constants.operand-is-add", ok2)
+	if ok2 {
+		k2, ok3 := add.Y.(*constant.Int)
+		vfAssert("C03.constants.operand-is-int", ok3)
+		if ok3 {
+			vfAssert("C03.constants.operand-value", k2.X.Cmp(x) == 0)
+		}
+	}
 }
